@@ -68,7 +68,7 @@ func checkUnits(r *fw.R, be backend) {
 	r.NontrivialIdx()
 	vs := compareLists(r, be, exp, act, ops)
 	if len(vs) == 0 {
-		r.Outcome("units-ok-" + be.family)
+		r.Outcome("size-and-placement-ok-" + be.family)
 	}
 	for _, v := range vs {
 		r.Outcome("violation:" + v.class)
